@@ -258,7 +258,7 @@ theorem nextTokenCore_err {buf : Bytes} {np : Bool} {s : State} {e : LexErr}
     have inv := triviaLoop_ok (p0 := s.pos) htl (by simp [CommentsOK]) (by simp [lastEnd])
     obtain ⟨i1, i2, i3, i4, i5, i6⟩ := inv
     split at h
-    · cases h
+    · split at h <;> cases h
     · split at h
       · cases h
       · rename_i e' hsc
